@@ -2,21 +2,42 @@
 //!
 //! Direct observation (the deciding part; the Coq side is only the decomposition theorem):
 //! for every dialect x rule selection {all, core, each group, each single fix-compatible rule} x
-//! fully parsable input (dialect fixtures and their whitespace-scrambled / collapsed / keyword-case
-//! perturbations): `parse(fix(source))` has no Unparsable node and no parse error.
+//! rule configuration {default, every non-default value of every option a fix-compatible rule reads,
+//! combined non-default configurations, layout configurations} x fully parsable input:
+//! `parse(fix(source))` has no Unparsable node and no parse error.
+//! Input classes:
+//!  * `probe`      token-adjacency probes of C06 and minimised earlier failures;
+//!  * `corpus` / `scrambled` / `collapsed` / `recased`   dialect fixtures and their perturbations;
+//!  * `statement`  single statements cut out of the fixtures (also of the files too big to run whole);
+//!  * `joint-*`    a line-ending inline comment / block comment / bare line break put at one joint
+//!                 between two code tokens — *also where the source has no gap* (`a[1]`, `x::int`,
+//!                 `f(`, `s.t`): systematically at every joint of the touch-site probes, sampled
+//!                 (biased to brackets, casts, dots, colons, signs) in fixture statements; the rest
+//!                 of the statement one token group per line, so that a swallowed token is missed;
+//!  * `option`     fixture statements relevant to a rule (its trigger words occur; chosen so that every
+//!                 distinct local context of the trigger in the dialect's fixtures is met) under each
+//!                 non-default value of the rule's options, rule alone and inside its group / `all`;
+//!  * `synth`      generated queries: 1-4 sources (tables, aliased / unaliased derived tables, nested,
+//!                 VALUES, LATERAL, table functions, CTE references, FROM elements and SELECTs cut out
+//!                 of the fixtures) x every join kind the dialect parses (incl. semi / anti / asof /
+//!                 natural / comma) x ON / USING / no condition x select lists x WHERE / GROUP BY /
+//!                 ORDER BY tails, alone or under CTEs, set operators, INSERT / CREATE ... AS, derived
+//!                 wrappers; under default and non-default configurations.
 //! Also measures the antecedents of `C05_decomposition` on layout / capitalisation selections
 //! (diagnostic): code tokens preserved (C06), preserved up to ASCII case (C16), gap pattern unchanged.
+use std::collections::{BTreeMap, HashMap, HashSet};
+
 use serde_json::{Value, json};
 use sqruff_lib::core::linter::core::Linter;
+use sqruff_lib::core::linter::core::verif_hook::FIX_HOOK;
 use sqruff_lib::core::rules::base::RuleGroups;
 use sqruff_lib_core::dialects::syntax::{SyntaxKind, SyntaxSet};
-use sqruff_lib_core::parser::segments::base::Tables;
+use sqruff_lib_core::parser::segments::base::{ErasedSegment, Tables};
 
-use crate::c06::{FUSION_PROBES, LAYOUT_CFGS, Linters, code_of, collapse, fnv, lex_tokens, linter, mk_linter, scramble};
+use crate::c06::{FUSION_PROBES, LAYOUT_CFGS, LayoutCfg, Linters, code_of, collapse, fnv, install_hook, lex_tokens, linter, scramble, take_rec};
 use crate::common::*;
 
-/// (number of Unparsable nodes, number of parse violations, tree present)
-fn parse_status(lt: &Linter, sql: &str) -> Result<(usize, usize, bool), String> {
+fn parse_tree(lt: &Linter, sql: &str) -> Result<(usize, usize, Option<ErasedSegment>), String> {
     let tables = Tables::default();
     let r = catch(|| lt.parse_string(&tables, sql, None));
     match r {
@@ -25,16 +46,23 @@ fn parse_status(lt: &Linter, sql: &str) -> Result<(usize, usize, bool), String> 
                 Some(t) => t.recursive_crawl(&SyntaxSet::single(SyntaxKind::Unparsable), true, &SyntaxSet::EMPTY, true).len(),
                 None => 0,
             };
-            Ok((unp, p.violations.len(), p.tree.is_some()))
+            Ok((unp, p.violations.len(), p.tree))
         }
         Ok(Err(e)) => Err(format!("{:?}", e)),
         Err(p) => Err(format!("panic: {}", p)),
     }
 }
+/// (number of Unparsable nodes, number of parse violations, tree present)
+fn parse_status(lt: &Linter, sql: &str) -> Result<(usize, usize, bool), String> {
+    parse_tree(lt, sql).map(|(u, v, t)| (u, v, t.is_some()))
+}
+fn parses_cleanly(lt: &Linter, sql: &str) -> bool {
+    matches!(parse_status(lt, sql), Ok((0, 0, true)))
+}
 
 pub fn selections() -> Vec<(String, &'static str)> {
     let mut v: Vec<(String, &'static str)> = vec![("all".into(), "all"), ("core".into(), "core")];
-    for g in ["aliasing", "ambiguous", "capitalisation", "convention", "layout", "references", "structure"] {
+    for g in GROUPS {
         v.push((g.to_string(), "group"));
     }
     for r in sqruff_lib::rules::rules() {
@@ -44,6 +72,7 @@ pub fn selections() -> Vec<(String, &'static str)> {
     }
     v
 }
+const GROUPS: [&str; 7] = ["aliasing", "ambiguous", "capitalisation", "convention", "layout", "references", "structure"];
 fn is_layout_or_caps(sel: &str) -> bool {
     sel == "layout" || sel == "capitalisation" || sel.starts_with("LT") || sel.starts_with("CP")
 }
@@ -51,7 +80,121 @@ fn _groups_exist() {
     // the group names above are the lower-cased RuleGroups variants
     let _ = [RuleGroups::Aliasing, RuleGroups::Ambiguous, RuleGroups::Capitalisation, RuleGroups::Convention, RuleGroups::Layout, RuleGroups::References, RuleGroups::Structure];
 }
+fn group_of(code: &str) -> &'static str {
+    match &code[..2] {
+        "AL" => "aliasing",
+        "AM" => "ambiguous",
+        "CP" => "capitalisation",
+        "CV" => "convention",
+        "LT" => "layout",
+        "RF" => "references",
+        _ => "structure",
+    }
+}
+fn sel_kind(sel: &str) -> &'static str {
+    match sel {
+        "all" => "all",
+        "core" => "core",
+        s if GROUPS.contains(&s) => "group",
+        _ => "single",
+    }
+}
 
+// ------------------------------------------------------------------ rule options
+/// CV10 `force_enable`: "disabled for dialects that do not support single and double quotes for quoted
+/// literals": forcing it where a double-quoted token is an identifier asks for a different statement, not
+/// for a restyled one. These are the dialects whose double-quoted tokens are string literals.
+const QUOTE_DIALECTS: &[&str] = &["bigquery", "sparksql", "databricks", "mysql"];
+/// (rule code, non-default option lines of the rule's section, trigger words: a statement is relevant
+/// when its lower-cased text contains one of them; empty = every statement is relevant, dialects in which
+/// the configuration is meaningful; empty = all)
+const RULE_OPTS: &[(&str, &str, &[&str], &[&str])] = &[
+    ("AL01", "aliasing = implicit", &[" as "], &[]),
+    ("AL02", "aliasing = implicit", &[" as "], &[]),
+    ("AL07", "force_enable = True", &["join", " as ", "from"], &[]),
+    ("AM05", "fully_qualify_join_types = outer", &["join"], &[]),
+    ("AM05", "fully_qualify_join_types = both", &["join"], &[]),
+    ("CP01", "capitalisation_policy = upper", &[], &[]),
+    ("CP01", "capitalisation_policy = lower", &[], &[]),
+    ("CP01", "capitalisation_policy = capitalise", &[], &[]),
+    ("CP02", "extended_capitalisation_policy = upper", &[], &[]),
+    ("CP02", "extended_capitalisation_policy = lower", &[], &[]),
+    ("CP02", "extended_capitalisation_policy = pascal", &[], &[]),
+    ("CP02", "extended_capitalisation_policy = capitalise", &[], &[]),
+    ("CP02", "extended_capitalisation_policy = upper\nunquoted_identifiers_policy = aliases", &[" as "], &[]),
+    ("CP02", "extended_capitalisation_policy = lower\nunquoted_identifiers_policy = column_aliases", &[" as "], &[]),
+    ("CP03", "extended_capitalisation_policy = upper", &["("], &[]),
+    ("CP03", "extended_capitalisation_policy = lower", &["("], &[]),
+    ("CP03", "extended_capitalisation_policy = pascal", &["("], &[]),
+    ("CP03", "extended_capitalisation_policy = capitalise", &["("], &[]),
+    ("CP04", "capitalisation_policy = upper", &["null", "true", "false"], &[]),
+    ("CP04", "capitalisation_policy = lower", &["null", "true", "false"], &[]),
+    ("CP04", "capitalisation_policy = capitalise", &["null", "true", "false"], &[]),
+    ("CP05", "extended_capitalisation_policy = upper", &["int", "char", "date", "time", "numeric", "decimal", "cast", "::", "create"], &[]),
+    ("CP05", "extended_capitalisation_policy = lower", &["int", "char", "date", "time", "numeric", "decimal", "cast", "::", "create"], &[]),
+    ("CP05", "extended_capitalisation_policy = capitalise", &["int", "char", "date", "time", "numeric", "decimal", "cast", "::", "create"], &[]),
+    ("CV01", "preferred_not_equal_style = c_style", &["<>", "!="], &[]),
+    ("CV01", "preferred_not_equal_style = ansi", &["<>", "!="], &[]),
+    ("CV06", "multiline_newline = True", &[], &[]),
+    ("CV06", "require_final_semicolon = True", &[], &[]),
+    ("CV06", "multiline_newline = True\nrequire_final_semicolon = True", &[], &[]),
+    ("CV10", "preferred_quoted_literal_style = single_quotes\nforce_enable = True", &["'", "\""], QUOTE_DIALECTS),
+    ("CV10", "preferred_quoted_literal_style = double_quotes\nforce_enable = True", &["'", "\""], QUOTE_DIALECTS),
+    ("CV10", "force_enable = True", &["'", "\""], QUOTE_DIALECTS),
+    ("CV10", "preferred_quoted_literal_style = single_quotes", &["'", "\""], &["bigquery", "sparksql"]),
+    ("CV10", "preferred_quoted_literal_style = double_quotes", &["'", "\""], &["bigquery", "sparksql"]),
+    ("CV11", "preferred_type_casting_style = cast", &["cast", "::", "convert"], &[]),
+    ("CV11", "preferred_type_casting_style = convert", &["cast", "::", "convert"], &[]),
+    ("CV11", "preferred_type_casting_style = shorthand", &["cast", "::", "convert"], &[]),
+    ("LT05", "ignore_comment_lines = True", &["--", "/*", "#"], &[]),
+    ("LT05", "ignore_comment_clauses = True", &["comment"], &[]),
+    ("LT09", "wildcard_policy = multiple", &["*"], &[]),
+    ("RF03", "single_table_references = qualified\nforce_enable = True", &["from"], &[]),
+    ("RF03", "single_table_references = unqualified\nforce_enable = True", &["from"], &[]),
+    ("RF03", "force_enable = True", &["from"], &[]),
+    ("RF06", "prefer_quoted_identifiers = True\nforce_enable = True", &[], &[]),
+    ("RF06", "prefer_quoted_keywords = True\nforce_enable = True", &[], &[]),
+    ("RF06", "force_enable = True", &["\"", "`", "["], &[]),
+    ("ST05", "forbid_subquery_in = from", &["select"], &[]),
+    ("ST05", "forbid_subquery_in = both", &["select"], &[]),
+];
+
+struct OptCfg {
+    code: &'static str,
+    only: &'static [&'static str],
+    cfg: &'static LayoutCfg,
+    triggers: &'static [&'static str],
+}
+fn leak_cfg(name: String, body: String) -> &'static LayoutCfg {
+    Box::leak(Box::new(LayoutCfg { name: Box::leak(name.into_boxed_str()), body: Box::leak(body.into_boxed_str()) }))
+}
+/// One configuration per RULE_OPTS row (section named by the rule's `config_ref`), and two combined
+/// configurations (first / last non-default value of every rule at once) for the wide selections.
+fn option_cfgs() -> (Vec<OptCfg>, Vec<&'static LayoutCfg>) {
+    let mut refs: HashMap<&'static str, &'static str> = HashMap::new();
+    for r in sqruff_lib::rules::rules() {
+        refs.insert(r.code(), r.config_ref());
+    }
+    let mut v = vec![];
+    let mut first: BTreeMap<&str, String> = BTreeMap::new();
+    let mut last: BTreeMap<&str, String> = BTreeMap::new();
+    for (code, opts, triggers, only) in RULE_OPTS {
+        let Some(sec) = refs.get(code) else { continue };
+        let body = format!("[sqruff:rules:{}]\n{}\n", sec, opts);
+        if only.is_empty() {
+            first.entry(code).or_insert(body.clone());
+            last.insert(code, body.clone());
+        }
+        v.push(OptCfg { code, only, cfg: leak_cfg(format!("{}:{}", code, opts.replace('\n', ",").replace(' ', "")), body), triggers });
+    }
+    let combos = vec![
+        leak_cfg("combo-first".into(), first.values().cloned().collect::<String>()),
+        leak_cfg("combo-last".into(), last.values().cloned().collect::<String>()),
+    ];
+    (v, combos)
+}
+
+// ------------------------------------------------------------------ small helpers
 /// flip the case of every keyword-like code token (letters only) by `mode`: 0 upper, 1 lower, 2 alternate
 fn recase(toks: &[(u8, String)], mode: usize) -> String {
     let mut out = String::new();
@@ -93,24 +236,624 @@ fn gap_pattern(toks: &[(u8, String)]) -> Vec<bool> {
     v
 }
 
+/// `f` over `items` on the harness' worker threads, each with its own linter cache; results in item order.
+fn par_map<I: Sync, R: Send>(items: &[I], f: impl Fn(&mut Linters, &I) -> R + Sync) -> Vec<R> {
+    let threads = std::env::var("SQV_THREADS").ok().and_then(|s| s.parse().ok()).unwrap_or(16usize).max(1);
+    let n = items.len();
+    let next = std::sync::atomic::AtomicUsize::new(0);
+    let results: std::sync::Mutex<Vec<Option<R>>> = std::sync::Mutex::new((0..n).map(|_| None).collect());
+    std::thread::scope(|sc| {
+        for _ in 0..threads.min(n.max(1)) {
+            sc.spawn(|| {
+                let mut st = Linters::new();
+                loop {
+                    let i = next.fetch_add(1, std::sync::atomic::Ordering::SeqCst);
+                    if i >= n {
+                        break;
+                    }
+                    let r = f(&mut st, &items[i]);
+                    results.lock().unwrap()[i] = Some(r);
+                }
+            });
+        }
+    });
+    results.into_inner().unwrap().into_iter().flatten().collect()
+}
+
+// ------------------------------------------------------------------ the fixtures, cut into statements and fragments
+#[derive(Default)]
+struct Harvest {
+    whole_clean: bool,
+    whole_toks: Vec<(u8, String)>,
+    /// statements of the file that parse cleanly on their own: (text, tokens)
+    stmts: Vec<(String, Vec<(u8, String)>)>,
+    selects: Vec<String>,
+    from_elems: Vec<String>,
+    joins: Vec<String>,
+}
+fn one_line(raw: &str) -> Option<String> {
+    if raw.contains("--") || raw.contains("/*") || raw.contains('#') || raw.contains("//") || raw.contains(';') {
+        return None;
+    }
+    Some(raw.split_whitespace().collect::<Vec<_>>().join(" "))
+}
+fn split_statements(toks: &[(u8, String)]) -> Vec<String> {
+    let mut out = vec![];
+    let mut cur = String::new();
+    let mut has_code = false;
+    let mut depth = 0i32;
+    for (cls, raw) in toks {
+        if *cls == 0 {
+            match raw.as_str() {
+                "(" | "[" => depth += 1,
+                ")" | "]" => depth -= 1,
+                _ => {}
+            }
+        }
+        if !has_code && *cls != 0 {
+            // leading layout / comments stay with the statement only if a comment started it
+            if *cls == 2 && cur.is_empty() {
+                continue;
+            }
+        }
+        cur.push_str(raw);
+        if *cls == 0 {
+            has_code = true;
+            if raw == ";" && depth <= 0 {
+                cur.push('\n');
+                out.push(std::mem::take(&mut cur));
+                has_code = false;
+                depth = 0;
+            }
+        }
+    }
+    if has_code {
+        let t = cur.trim_end().to_string();
+        out.push(format!("{}\n", t));
+    }
+    out
+}
+fn harvest_file(ls: &mut Linters, f: &CorpusFile, whole_max: usize) -> Harvest {
+    let mut h = Harvest::default();
+    let lt = linter(ls, &f.dialect, "LT01", &LAYOUT_CFGS[0]);
+    let Ok(toks) = lex_tokens(lt, &f.text) else { return h };
+    if f.text.len() <= whole_max {
+        h.whole_clean = parses_cleanly(lt, &f.text);
+    }
+    let pieces = split_statements(&toks);
+    h.whole_toks = toks;
+    let kinds = SyntaxSet::new(&[SyntaxKind::SelectStatement, SyntaxKind::FromExpressionElement, SyntaxKind::JoinClause]);
+    for p in pieces {
+        if p.len() > 1500 {
+            continue;
+        }
+        let Ok((0, 0, Some(tree))) = parse_tree(lt, &p) else { continue };
+        for seg in tree.recursive_crawl(&kinds, true, &SyntaxSet::EMPTY, true) {
+            let raw = seg.raw().to_string();
+            let Some(flat) = one_line(&raw) else { continue };
+            match seg.get_type() {
+                SyntaxKind::SelectStatement if flat.len() <= 160 => h.selects.push(flat),
+                SyntaxKind::FromExpressionElement if flat.len() <= 110 => h.from_elems.push(flat),
+                SyntaxKind::JoinClause if flat.len() <= 150 => h.joins.push(flat),
+                _ => {}
+            }
+        }
+        if let Ok(t) = lex_tokens(lt, &p) {
+            h.stmts.push((p, t));
+        }
+    }
+    h
+}
+
+// ------------------------------------------------------------------ class `joint-*`
+/// code / comment tokens, each with the layout run that follows it
+fn units(toks: &[(u8, String)]) -> Vec<(u8, String, String)> {
+    let mut v: Vec<(u8, String, String)> = vec![];
+    for (cls, raw) in toks {
+        if *cls == 2 {
+            if let Some(l) = v.last_mut() {
+                l.2.push_str(raw);
+            }
+        } else {
+            v.push((*cls, raw.clone(), String::new()));
+        }
+    }
+    v
+}
+fn is_inline_comment(u: &(u8, String, String)) -> bool {
+    u.0 == 1 && (u.1.starts_with("--") || u.1.starts_with('#') || u.1.starts_with("//"))
+}
+/// tokens at which the default layout asks for `touch` (brackets, casts, dots, colons, commas, signs ...)
+fn is_touch_token(raw: &str) -> bool {
+    matches!(raw, "[" | "]" | "(" | ")" | "::" | "." | ":" | "," | ";" | "-" | "+" | "~" | "<" | ">" | "{" | "}" | "=>" | "->" | "->>")
+}
+const JOINT_STYLES: [(&str, &str); 4] = [("joint-inline-comment", " -- c\n"), ("joint-block-comment-eol", " /* c */\n"), ("joint-line-break", "\n"), ("joint-block-comment", " /* c */ ")];
+/// The statement with `filler` put at the joint after unit `k` (replacing the gap there, if any).
+/// `explode`: every other gap becomes a line break, and brackets go on lines of their own side.
+fn with_joint(us: &[(u8, String, String)], k: usize, filler: &str, explode: bool) -> String {
+    let mut out = String::new();
+    for (i, u) in us.iter().enumerate() {
+        out.push_str(&u.1);
+        if i + 1 == us.len() {
+            out.push('\n');
+            break;
+        }
+        if i == k && !is_inline_comment(u) {
+            out.push_str(filler);
+        } else if is_inline_comment(u) {
+            out.push('\n');
+        } else if explode {
+            let next = &us[i + 1].1;
+            if !u.2.is_empty() || matches!(u.1.as_str(), "(" | "[") || matches!(next.as_str(), ")" | "]") {
+                out.push('\n');
+            }
+        } else {
+            out.push_str(&u.2);
+        }
+    }
+    out
+}
+
+/// statements that exercise every `touch` / `touch:inline` site of the default layout configuration
+const TOUCH_PROBES: &[(&str, &str)] = &[
+    ("ansi", "SELECT a[1] + f(b, 0) AS c FROM t\n"),
+    ("ansi", "SELECT s.t.col, CAST(x AS INT), -1, +y, count(*) FROM s.t WHERE t.b > 1.5\n"),
+    ("ansi", "SELECT a::int, b::numeric(10, 2) FROM t\n"),
+    ("ansi", "WITH x AS (SELECT 1 AS a) SELECT x.a FROM x\n"),
+    ("ansi", "INSERT INTO t (a, b) VALUES (1, 2)\n"),
+    ("ansi", "CREATE TABLE t (a INT, b VARCHAR(10), c NUMERIC(10, 2))\n"),
+    ("ansi", "SELECT a FROM t WHERE a IN (1, 2) AND f(g(a)[1]) = 1;\n"),
+    ("postgres", "SELECT a::int, arr[1:2], ~x, c -> 'k', ARRAY[1, 2]::int[] FROM t\n"),
+    ("postgres", "SELECT t.a[1], (t.b).c, f(a)::text FROM s.t\n"),
+    ("bigquery", "SELECT a[OFFSET(0)], STRUCT<x INT64>(1), ARRAY<INT64>[1, 2], t.a.b FROM d.t\n"),
+    ("bigquery", "SELECT ARRAY(SELECT 1)[SAFE_OFFSET(0)], CAST(x AS ARRAY<STRING>) FROM t\n"),
+    ("snowflake", "SELECT a:b.c::string, c[0]:d, f(x => 1) FROM t\n"),
+    ("snowflake", "SELECT t.v:k[0]::int, -a FROM s.t\n"),
+    ("sparksql", "SELECT a[0], m['k'], CAST(x AS ARRAY<INT>), named_struct('a', 1).a FROM t\n"),
+    ("databricks", "SELECT a[0], m['k'], x::int, s.f FROM c.d.t\n"),
+    ("duckdb", "SELECT a[1], b::INT[], l[1:2], {'k': 1} FROM t\n"),
+    ("clickhouse", "SELECT a[1], CAST(x AS Array(Int32)), t.1 FROM t\n"),
+    ("trino", "SELECT a[1], CAST(x AS ARRAY(INTEGER)), ROW(1, 2) FROM t\n"),
+    ("athena", "SELECT a[1], CAST(x AS ARRAY<INTEGER>) FROM t\n"),
+    ("redshift", "SELECT a::int, b[0].c, f(x) FROM s.t\n"),
+    ("mysql", "SELECT `a`.`b`, f(x), -1 FROM t\n"),
+    ("sqlite", "SELECT a.b, CAST(x AS INT), f(x) FROM t\n"),
+];
+
+// ------------------------------------------------------------------ class `synth`
+#[derive(Default, Clone)]
+struct Frags {
+    selects: Vec<String>,
+    from_elems: Vec<String>,
+    joins: Vec<String>,
+}
+const JOIN_KINDS: &[&str] = &[
+    "JOIN", "INNER JOIN", "LEFT JOIN", "LEFT OUTER JOIN", "RIGHT JOIN", "RIGHT OUTER JOIN", "FULL JOIN", "FULL OUTER JOIN", "CROSS JOIN",
+    "NATURAL JOIN", "NATURAL LEFT JOIN", "NATURAL INNER JOIN", "NATURAL FULL OUTER JOIN", "LEFT SEMI JOIN", "LEFT ANTI JOIN", "SEMI JOIN", "ANTI JOIN",
+    "RIGHT SEMI JOIN", "RIGHT ANTI JOIN", "ASOF JOIN", "LEFT ASOF JOIN", "ANY LEFT JOIN", "ALL INNER JOIN", "GLOBAL LEFT JOIN", "STRAIGHT_JOIN",
+    "CROSS APPLY", "OUTER APPLY", "POSITIONAL JOIN", "INNER JOIN LATERAL", "LEFT JOIN LATERAL", ",",
+];
+const SET_OPS: &[&str] = &["UNION", "UNION ALL", "UNION DISTINCT", "EXCEPT", "EXCEPT ALL", "INTERSECT", "MINUS"];
+const N_SRC_FORMS: usize = 22;
+/// source form `i` over table number `n` with alias `a`: (text, name by which its columns can be qualified)
+fn src_form(i: usize, n: usize, a: &str, fr: &Frags, rng: &mut Rng) -> Option<(String, Option<String>)> {
+    let t = format!("t{}", n);
+    let pick = |v: &Vec<String>, rng: &mut Rng| -> Option<String> { if v.is_empty() { None } else { Some(v[rng.below(v.len())].clone()) } };
+    Some(match i {
+        0 => (t.clone(), Some(t)),
+        1 => (format!("{} AS {}", t, a), Some(a.into())),
+        2 => (format!("{} {}", t, a), Some(a.into())),
+        3 => (format!("s.{}", t), Some(t)),
+        4 => (format!("s.{} AS {}", t, a), Some(a.into())),
+        5 => (format!("(SELECT id, x FROM {})", t), None),
+        6 => (format!("(SELECT id, x FROM {}) AS {}", t, a), Some(a.into())),
+        7 => (format!("(SELECT DISTINCT id FROM {} WHERE x > 1) {}", t, a), Some(a.into())),
+        8 => (format!("({})", pick(&fr.selects, rng)?), None),
+        9 => (format!("({}) AS {}", pick(&fr.selects, rng)?, a), Some(a.into())),
+        10 => (pick(&fr.from_elems, rng)?, None),
+        11 => (format!("(VALUES (1, 2)) AS {} (id, x)", a), Some(a.into())),
+        12 => (format!("(SELECT * FROM (SELECT id FROM {}) AS i{})", t, n), None),
+        13 => (format!("(SELECT id FROM {} UNION ALL SELECT id FROM t{})", t, n + 1), None),
+        14 => (format!("(SELECT id FROM {} UNION ALL SELECT id FROM t{}) AS {}", t, n + 1, a), Some(a.into())),
+        15 => (format!("LATERAL (SELECT id FROM {}) AS {}", t, a), Some(a.into())),
+        16 => (format!("UNNEST(arr{}) AS {}", n, a), Some(a.into())),
+        17 => (format!("f{}(1, 2) AS {}", n, a), Some(a.into())),
+        18 => (format!("({} INNER JOIN t{} USING (id))", t, n + 1), None),
+        19 => (format!("(SELECT id, x FROM {} WHERE x IN (SELECT x FROM t{}))", t, n + 1), None),
+        20 => (format!("db.s.{}", t), Some(t)),
+        _ => (format!("(WITH w AS (SELECT id FROM {}) SELECT id FROM w) AS {}", t, a), Some(a.into())),
+    })
+}
+/// what of the vocabulary the dialect parses
+struct Vocab {
+    src_ok: Vec<bool>,
+    /// per join kind: ON / USING / no condition
+    jk_ok: Vec<[bool; 3]>,
+    set_ok: Vec<bool>,
+    wrap_ok: Vec<bool>,
+}
+const WRAPS: &[(&str, &str)] = &[
+    ("INSERT INTO t9 ", ""),
+    ("CREATE TABLE t9 AS ", ""),
+    ("CREATE VIEW v9 AS ", ""),
+    ("SELECT * FROM (", ") AS w"),
+    ("SELECT w.id FROM (", ") AS w WHERE w.id > 1"),
+    ("SELECT * FROM (", ")"),
+    ("CREATE OR REPLACE VIEW v9 AS ", ""),
+    ("SELECT id FROM t8 WHERE id IN (", ")"),
+    ("SELECT id FROM t8 WHERE EXISTS (", ")"),
+];
+fn vocab(lt: &Linter, fr: &Frags) -> Vocab {
+    let mut rng = Rng::new(7);
+    let ok = |s: String| parses_cleanly(lt, &s);
+    let src_ok = (0..N_SRC_FORMS)
+        .map(|i| match src_form(i, 1, "y", fr, &mut rng) {
+            Some((s, _)) => i == 8 || i == 9 || i == 10 || ok(format!("SELECT * FROM {}\n", s)),
+            None => false,
+        })
+        .collect();
+    // a join kind counts only if the dialect reads it as one: with a bare table on its left the parse must
+    // be clean *and* hold no alias (otherwise `t0 ANTI JOIN t1` is just table t0 aliased ANTI)
+    let is_join = |s: String| match parse_tree(lt, &s) {
+        Ok((0, 0, Some(t))) => t.recursive_crawl(&SyntaxSet::single(SyntaxKind::AliasExpression), true, &SyntaxSet::EMPTY, true).is_empty(),
+        _ => false,
+    };
+    let jk_ok = JOIN_KINDS
+        .iter()
+        .map(|jk| {
+            [
+                *jk != "," && is_join(format!("SELECT * FROM t0 {} t1 ON t0.id = t1.id\n", jk)),
+                *jk != "," && is_join(format!("SELECT * FROM t0 {} t1 USING (id)\n", jk)),
+                is_join(format!("SELECT * FROM t0 {} t1\n", jk)),
+            ]
+        })
+        .collect();
+    let set_ok = SET_OPS.iter().map(|op| ok(format!("SELECT id FROM t1 {} SELECT id FROM t2\n", op))).collect();
+    let wrap_ok = WRAPS.iter().map(|(a, b)| ok(format!("{}SELECT id FROM t1{}\n", a, b))).collect();
+    Vocab { src_ok, jk_ok, set_ok, wrap_ok }
+}
+fn pick_ok(ok: &[bool], rng: &mut Rng) -> Option<usize> {
+    let v: Vec<usize> = (0..ok.len()).filter(|i| ok[*i]).collect();
+    if v.is_empty() { None } else { Some(v[rng.below(v.len())]) }
+}
+
+struct Sel {
+    items: Vec<String>,
+    distinct: bool,
+    clauses: Vec<String>,
+}
+fn core_select(v: &Vocab, fr: &Frags, rng: &mut Rng, base: usize, ctes: &[String]) -> Sel {
+    const ALIASES: [&str; 4] = ["a", "b", "c", "d"];
+    let n_src = match rng.below(20) {
+        0..=2 => 1,
+        3..=9 => 2,
+        10..=16 => 3,
+        _ => 4,
+    };
+    let mut names: Vec<Option<String>> = vec![];
+    let mut clauses: Vec<String> = vec![];
+    for k in 0..n_src {
+        // a source: a CTE of the statement, a harvested join clause as a whole, or a source form
+        let (text, name) = if !ctes.is_empty() && rng.chance(1, 3) {
+            let c = ctes[rng.below(ctes.len())].clone();
+            if rng.chance(1, 2) { (format!("{} AS {}", c, ALIASES[k]), Some(ALIASES[k].to_string())) } else { (c.clone(), Some(c)) }
+        } else {
+            let mut got = None;
+            for _ in 0..6 {
+                // the plain and derived forms more often than the exotic ones
+                let i = if rng.chance(1, 2) { rng.below(8) } else { rng.below(N_SRC_FORMS) };
+                if v.src_ok[i] {
+                    if let Some(s) = src_form(i, base + k + 1, ALIASES[k], fr, rng) {
+                        got = Some(s);
+                        break;
+                    }
+                }
+            }
+            got.unwrap_or_else(|| (format!("t{}", base + k + 1), Some(format!("t{}", base + k + 1))))
+        };
+        if k == 0 {
+            clauses.push(format!("FROM {}", text));
+            names.push(name);
+            continue;
+        }
+        if !fr.joins.is_empty() && rng.chance(1, 10) {
+            clauses.push(fr.joins[rng.below(fr.joins.len())].clone());
+            names.push(None);
+            continue;
+        }
+        // join kind and condition
+        let mut jk = 1usize;
+        let mut ck = 0usize;
+        for _ in 0..8 {
+            let j = if rng.chance(1, 2) { rng.below(9) } else { rng.below(JOIN_KINDS.len()) };
+            let c = match rng.below(10) {
+                0..=3 => 0,
+                4..=7 => 1,
+                _ => 2,
+            };
+            if v.jk_ok[j][c] {
+                jk = j;
+                ck = c;
+                break;
+            }
+        }
+        let prev: Option<String> = {
+            let named: Vec<&String> = names.iter().flatten().collect();
+            if named.is_empty() || rng.chance(1, 6) { None } else { Some(named[rng.below(named.len())].clone()) }
+        };
+        let col = |q: &Option<String>, c: &str| match q {
+            Some(q) => format!("{}.{}", q, c),
+            None => c.to_string(),
+        };
+        let cond = match ck {
+            0 => match rng.below(5) {
+                0 => format!(" ON {} = {}", col(&name, "id"), col(&prev, "id")),
+                1 => format!(" ON {} = {} AND {} > {}", col(&prev, "id"), col(&name, "id"), col(&prev, "x"), col(&name, "x")),
+                2 => format!(" ON ({} = {})", col(&prev, "id"), col(&name, "id")),
+                3 => " ON TRUE".to_string(),
+                _ => format!(" ON {} = {}", col(&prev, "id"), col(&name, "id")),
+            },
+            1 => if rng.chance(1, 3) { " USING (id, x)".to_string() } else { " USING (id)".to_string() },
+            _ => String::new(),
+        };
+        if JOIN_KINDS[jk] == "," {
+            let l = clauses.last_mut().unwrap();
+            l.push_str(&format!(", {}", text));
+        } else {
+            clauses.push(format!("{} {}{}", JOIN_KINDS[jk], text, cond));
+        }
+        names.push(name);
+    }
+    let named: Vec<String> = names.iter().flatten().cloned().collect();
+    let q = |rng: &mut Rng| -> Option<String> { if named.is_empty() || rng.chance(1, 5) { None } else { Some(named[rng.below(named.len())].clone()) } };
+    let col = |q: Option<String>, c: &str| match q {
+        Some(q) => format!("{}.{}", q, c),
+        None => c.to_string(),
+    };
+    let mut distinct = false;
+    let mut group = false;
+    let items: Vec<String> = match rng.below(13) {
+        0 => vec!["*".into()],
+        1 => vec![match q(rng) {
+            Some(q) => format!("{}.*", q),
+            None => "*".into(),
+        }],
+        2 => vec![col(q(rng), "id"), col(q(rng), "x")],
+        3 => vec!["id".into(), "x".into()],
+        4 => vec![format!("{} AS i", col(q(rng), "id")), format!("{} AS v", col(q(rng), "x"))],
+        5 => {
+            distinct = true;
+            vec![col(q(rng), "id")]
+        }
+        6 => vec!["COUNT(*) AS n".into()],
+        7 => {
+            group = true;
+            vec![col(q(rng), "id"), "COUNT(*) AS n".into()]
+        }
+        8 => vec![col(q(rng), "id"), format!("CASE WHEN {} > 1 THEN 1 ELSE 0 END AS f", col(q(rng), "x"))],
+        9 => vec![col(q(rng), "id"), format!("COALESCE({}, 0) x2", col(q(rng), "x"))],
+        10 => vec![col(q(rng), "id"), "(SELECT MAX(x) FROM t9) AS m".into()],
+        11 => vec![col(q(rng), "id"), format!("CASE WHEN {} IS NULL THEN NULL ELSE {} END AS g", col(q(rng), "x"), col(q(rng), "x"))],
+        _ => vec![col(q(rng), "id"), col(q(rng), "x"), col(q(rng), "y"), "1 AS one".into()],
+    };
+    match rng.below(7) {
+        0 => clauses.push(format!("WHERE {} > 1", col(q(rng), "x"))),
+        1 => clauses.push(format!("WHERE {} IN (SELECT id FROM t8)", col(q(rng), "id"))),
+        2 => clauses.push(format!("WHERE EXISTS (SELECT 1 FROM t8 WHERE t8.id = {})", col(q(rng), "id"))),
+        3 => clauses.push(format!("WHERE {} IS NOT NULL AND {} <> 1", col(q(rng), "x"), col(q(rng), "id"))),
+        _ => {}
+    }
+    if group {
+        clauses.push(if rng.chance(1, 2) { "GROUP BY 1".to_string() } else { format!("GROUP BY {}", items[0]) });
+        if rng.chance(1, 3) {
+            clauses.push("HAVING COUNT(*) > 1".into());
+        }
+    }
+    match rng.below(6) {
+        0 => clauses.push("ORDER BY 1".into()),
+        1 => clauses.push(format!("ORDER BY {} DESC", col(q(rng), "id"))),
+        _ => {}
+    }
+    if rng.chance(1, 6) {
+        clauses.push("LIMIT 10".into());
+    }
+    Sel { items, distinct, clauses }
+}
+fn render_sel(s: &Sel, style: usize, indent: &str, out: &mut Vec<String>) {
+    let head = if s.distinct { "SELECT DISTINCT" } else { "SELECT" };
+    if style == 2 {
+        out.push(format!("{}{}", indent, head));
+        for (i, it) in s.items.iter().enumerate() {
+            out.push(format!("{}    {}{}", indent, it, if i + 1 < s.items.len() { "," } else { "" }));
+        }
+    } else {
+        out.push(format!("{}{} {}", indent, head, s.items.join(", ")));
+    }
+    for c in &s.clauses {
+        out.push(format!("{}{}", indent, c));
+    }
+}
+/// one generated statement (style 0: one line; 1: a clause per line; 2: also a select target per line)
+fn synth_query(v: &Vocab, fr: &Frags, rng: &mut Rng) -> String {
+    let style = rng.below(3);
+    let mut lines: Vec<String> = vec![];
+    let mut ctes: Vec<String> = vec![];
+    let shape = rng.below(20);
+    if (10..14).contains(&shape) {
+        // CTEs
+        let n = rng.range(1, 2);
+        for k in 0..n {
+            let name = format!("cte{}", k + 1);
+            let inner = core_select(v, fr, rng, 4 + 2 * k, &ctes.clone());
+            lines.push(format!("{}{} AS (", if k == 0 { "WITH " } else { "" }, name));
+            render_sel(&inner, style, "    ", &mut lines);
+            lines.push(if k + 1 < n { "),".to_string() } else { ")".to_string() });
+            ctes.push(name);
+        }
+    }
+    let main = core_select(v, fr, rng, 0, &ctes);
+    match shape {
+        14..=16 => {
+            // set operators (2 or 3 operands)
+            render_sel(&main, style, "", &mut lines);
+            for k in 0..rng.range(1, 2) {
+                if let Some(o) = pick_ok(&v.set_ok, rng) {
+                    lines.push(SET_OPS[o].to_string());
+                    let other = core_select(v, fr, rng, 4 + 2 * k, &[]);
+                    render_sel(&other, style, "", &mut lines);
+                }
+            }
+        }
+        17 | 18 => match pick_ok(&v.wrap_ok, rng) {
+            Some(w) => {
+                lines.push(WRAPS[w].0.trim_end().to_string());
+                render_sel(&main, style, if WRAPS[w].1.is_empty() { "" } else { "    " }, &mut lines);
+                if !WRAPS[w].1.is_empty() {
+                    lines.push(WRAPS[w].1.to_string());
+                }
+            }
+            None => render_sel(&main, style, "", &mut lines),
+        },
+        19 => {
+            render_sel(&main, style, "", &mut lines);
+            let l = lines.last_mut().unwrap();
+            l.push(';');
+            let other = core_select(v, fr, rng, 4, &[]);
+            render_sel(&other, style, "", &mut lines);
+        }
+        _ => render_sel(&main, style, "", &mut lines),
+    }
+    let mut text = if style == 0 { lines.iter().map(|l| l.trim()).collect::<Vec<_>>().join(" ") } else { lines.join("\n") };
+    if rng.chance(1, 3) {
+        text.push(';');
+    }
+    text.push('\n');
+    if rng.chance(1, 4) {
+        text = text.to_ascii_lowercase();
+    }
+    text
+}
+
+
+// ------------------------------------------------------------------ failure class
+fn abstract_token(kw: &ahash::AHashSet<&'static str>, raw: &str) -> String {
+    let up = raw.to_ascii_uppercase();
+    let c0 = raw.chars().next().unwrap_or(' ');
+    if kw.contains(up.as_str()) {
+        up
+    } else if c0.is_ascii_digit() {
+        "<n>".into()
+    } else if c0 == '\'' || c0 == '"' || c0 == '`' || c0 == '$' {
+        "<q>".into()
+    } else if c0.is_alphanumeric() || c0 == '_' {
+        "<w>".into()
+    } else {
+        raw.chars().take(3).collect()
+    }
+}
+fn keywords(lt: &Linter) -> ahash::AHashSet<&'static str> {
+    let dialect = lt.config().get_dialect();
+    let mut kw = dialect.sets("reserved_keywords");
+    kw.extend(dialect.sets("unreserved_keywords"));
+    kw
+}
+/// Where the parser gives up: the first three code tokens of the first unparsable section of `sql`, with
+/// everything that is not a keyword of the dialect or punctuation abstracted (`<w>` word, `<n>` number,
+/// `<q>` quoted).
+fn breakage_signature(lt: &Linter, sql: &str) -> String {
+    let Ok((unp, pv, Some(tree))) = parse_tree(lt, sql) else { return "no-tree".into() };
+    if unp == 0 {
+        return if pv > 0 { "parse-violation".into() } else { "clean".into() };
+    }
+    let first = tree.recursive_crawl(&SyntaxSet::single(SyntaxKind::Unparsable), false, &SyntaxSet::EMPTY, true).into_iter().next();
+    let Some(first) = first else { return "unparsable".into() };
+    let kw = keywords(lt);
+    let toks = lex_tokens(lt, first.raw()).unwrap_or_default();
+    let sig: Vec<String> = toks.iter().filter(|t| t.0 == 0).take(3).map(|t| abstract_token(&kw, &t.1)).collect();
+    format!("at:{}", sig.join("_"))
+}
+/// Whether a batch left the code tokens of the tree alone (a layout-only batch).
+fn code_neutral(before: &ErasedSegment, after: &ErasedSegment) -> bool {
+    let code = |t: &ErasedSegment| -> Vec<String> { t.get_raw_segments().iter().filter(|s| s.is_code() && !s.raw().is_empty()).map(|s| s.raw().to_string()).collect() };
+    code(before) == code(after)
+}
+/// Which rule's batch of fixes first turned the (parsable) tree into text that does not parse:
+/// re-runs the fix with the recorder of the fix loop installed. Returns the rule code and, for a batch that
+/// only moved layout (or when no single batch can be blamed), where the parser gives up on its output; a
+/// batch that rewrote code is classed by the rule alone (what such a rule writes, and hence where the
+/// parser stops, varies with every input).
+fn culprit(lt: &Linter, sql: &str, fixed: &str) -> (String, Option<String>) {
+    install_hook();
+    let _ = catch(|| {
+        let lf = lt.lint_string(sql, None, true);
+        lf.fix_string()
+    });
+    let rec = take_rec();
+    FIX_HOOK.with(|h| *h.borrow_mut() = None);
+    let mut checked: HashMap<String, bool> = HashMap::new();
+    for b in rec.batches.iter().filter(|b| b.accepted) {
+        let text = b.after.raw().to_string();
+        let ok = *checked.entry(text.clone()).or_insert_with(|| parses_cleanly(lt, &text));
+        if !ok {
+            let sig = if code_neutral(&b.before, &b.after) { Some(breakage_signature(lt, &text)) } else { None };
+            return (b.rule.to_string(), sig);
+        }
+    }
+    ("unknown".into(), Some(breakage_signature(lt, fixed)))
+}
+/// the option lines of `rule`'s own section in a configuration body ("" when it has none)
+fn rule_options_in(body: &str, rule: &str) -> String {
+    let Some(sec) = sqruff_lib::rules::rules().into_iter().find(|r| r.code() == rule).map(|r| r.config_ref()) else { return String::new() };
+    let head = format!("[sqruff:rules:{}]", sec);
+    let mut inside = false;
+    let mut v = vec![];
+    for l in body.lines() {
+        if l.starts_with('[') {
+            inside = l.trim() == head;
+        } else if inside && !l.trim().is_empty() {
+            v.push(l.replace(' ', ""));
+        }
+    }
+    v.join(",")
+}
+
+// ------------------------------------------------------------------ one observation
 struct Item {
     cls: &'static str,
     dialect: String,
     sel: String,
-    sel_kind: &'static str,
+    cfg: &'static LayoutCfg,
     sql: String,
 }
 
 fn run_one(ls: &mut Linters, it: &Item, out: &mut Buf) {
-    let lt = linter(ls, &it.dialect, &it.sel, &LAYOUT_CFGS[0]);
-    let input = json!({"dialect": it.dialect, "rules": it.sel, "sql": it.sql});
+    let kind = sel_kind(&it.sel);
+    let lt = match catch(|| {
+        linter(ls, &it.dialect, &it.sel, it.cfg);
+    }) {
+        Ok(()) => linter(ls, &it.dialect, &it.sel, it.cfg),
+        Err(e) => {
+            out.hyp("configuration_loads", "diagnostic", false, json!({"dialect": it.dialect, "rules": it.sel, "cfg": it.cfg.name, "panic": e}));
+            return;
+        }
+    };
+    let mut input = json!({"dialect": it.dialect, "rules": it.sel, "sql": it.sql});
+    if !it.cfg.body.is_empty() {
+        input["cfg"] = json!(it.cfg.name);
+        input["cfg_body"] = json!(it.cfg.body);
+    }
     out.count("runs", 1);
-    out.count(&format!("runs_{}", it.sel_kind), 1);
+    out.count(&format!("runs_{}", kind), 1);
+    out.count(&format!("runs_cls_{}", it.cls), 1);
+    if !it.cfg.body.is_empty() {
+        out.count("runs_nondefault_cfg", 1);
+    }
     // the quantifier: fully parsable inputs only
     match parse_status(lt, &it.sql) {
         Ok((0, 0, true)) => {}
         _ => {
             out.count("skipped_source_not_fully_parsable", 1);
+            out.count(&format!("skipped_cls_{}", it.cls), 1);
             return;
         }
     }
@@ -125,25 +868,34 @@ fn run_one(ls: &mut Linters, it: &Item, out: &mut Buf) {
             return;
         }
     };
+    if std::env::var("SQV_SHOW").is_ok() {
+        eprintln!("FIXED ({} {} {}): {:?}", it.dialect, it.sel, it.cfg.name, fixed);
+    }
     if fixed == it.sql {
         out.count("unchanged_by_fix", 1);
         out.direct(it.cls, true, "", "", Value::Null);
         return;
     }
     out.count("changed_by_fix", 1);
-    let key = format!("c05:{}:{}:{}", it.dialect, it.sel, fnv(&it.sql));
+    out.count(&format!("changed_cls_{}", it.cls), 1);
+    // failure class: (dialect, rule whose batch broke the text, that rule's non-default options[, where the parser stops])
+    let fail = |out: &mut Buf, what: String| {
+        let (rule, sig) = culprit(lt, &it.sql, &fixed);
+        let opts = rule_options_in(it.cfg.body, &rule);
+        let mut key = format!("c05:{}:{}{}", it.dialect, rule, if opts.is_empty() { String::new() } else { format!("[{}]", opts) });
+        if let Some(sig) = sig {
+            key.push_str(&format!(":{}", sig));
+        }
+        let msg = format!("{} (first broken by a batch of {}; input {}); output: {:?}", what, rule, fnv(&it.sql), trunc(&fixed, 300));
+        out.direct(it.cls, false, &key, &msg, input.clone());
+    };
     match parse_status(lt, &fixed) {
         Ok((0, 0, true)) => out.direct(it.cls, true, "", "", Value::Null),
-        Ok((unp, pv, tree)) => {
-            let msg = format!("source parses cleanly, fix output does not: {} unparsable section(s), {} parse violation(s), tree={}; output: {:?}", unp, pv, tree, trunc(&fixed, 300));
-            out.direct(it.cls, false, &key, &msg, input.clone());
-        }
-        Err(e) => {
-            out.direct(it.cls, false, &key, &format!("source parses cleanly, parsing the fix output fails: {}", e), input.clone());
-        }
+        Ok((unp, pv, tree)) => fail(out, format!("source parses cleanly, fix output does not: {} unparsable section(s), {} parse violation(s), tree={}", unp, pv, tree)),
+        Err(e) => fail(out, format!("source parses cleanly, parsing the fix output fails: {}", e)),
     }
     // antecedents of the decomposition (diagnostic)
-    if is_layout_or_caps(&it.sel) {
+    if is_layout_or_caps(&it.sel) && it.cfg.body.is_empty() {
         if let (Ok(a), Ok(b)) = (lex_tokens(lt, &it.sql), lex_tokens(lt, &fixed)) {
             let (ca, cb) = (code_of(&a), code_of(&b));
             let fold = |v: &[String]| v.iter().map(|s| s.to_ascii_uppercase()).collect::<Vec<_>>();
@@ -157,23 +909,119 @@ fn run_one(ls: &mut Linters, it: &Item, out: &mut Buf) {
     }
 }
 
+/// Statements whose lower-cased text holds a trigger, at most `k`: first those that show a local
+/// context of the trigger (the two words before it and the word after it) not met so far, then a
+/// seeded sample of the rest.
+fn pick_relevant(stmts: &[(String, String)], triggers: &[&str], k: usize, rng: &mut Rng) -> Vec<usize> {
+    let mut order: Vec<usize> = (0..stmts.len()).collect();
+    rng.shuffle(&mut order);
+    if triggers.is_empty() {
+        order.truncate(k);
+        return order;
+    }
+    let mut seen: HashSet<String> = HashSet::new();
+    let mut first = vec![];
+    let mut rest = vec![];
+    for i in order {
+        let low = &stmts[i].1;
+        let mut relevant = false;
+        let mut novel = false;
+        for t in triggers {
+            let mut from = 0;
+            while let Some(p) = low[from..].find(t) {
+                let at = from + p;
+                relevant = true;
+                let mut s = at.saturating_sub(24);
+                while !low.is_char_boundary(s) {
+                    s -= 1;
+                }
+                let before: Vec<&str> = low[s..at].split_whitespace().collect();
+                let mut e = (at + t.len() + 12).min(low.len());
+                while !low.is_char_boundary(e) {
+                    e += 1;
+                }
+                let after = low[at + t.len()..e].split_whitespace().next().unwrap_or("");
+                let ctx = format!("{}|{}|{}", before.iter().rev().take(2).rev().cloned().collect::<Vec<_>>().join(" "), t, after);
+                if seen.insert(ctx) {
+                    novel = true;
+                }
+                from = at + t.len().max(1);
+                if from >= low.len() {
+                    break;
+                }
+            }
+        }
+        if novel {
+            first.push(i);
+        } else if relevant {
+            rest.push(i);
+        }
+    }
+    first.extend(rest);
+    first.truncate(k);
+    first
+}
+
 pub fn main(args: &Args) {
     silence_panics();
+    if let Some(path) = args.flag("--items-file") {
+        return run_items_file(args, &path);
+    }
     let mut out = Out::new(&args.out);
     let mut rng = Rng::new(args.seed);
     let mut items: Vec<Item> = vec![];
     let sels = selections();
+    let default_cfg: &'static LayoutCfg = &LAYOUT_CFGS[0];
+    if let Some(mode) = args.flag("--leak-test") {
+        // diagnostic: which step keeps memory (prints the resident set size)
+        let rss = || std::fs::read_to_string("/proc/self/statm").ok().and_then(|s| s.split_whitespace().nth(1).and_then(|x| x.parse::<usize>().ok())).unwrap_or(0) * 4 / 1024;
+        let mut ls = Linters::new();
+        let sql = "SELECT a.id, b.x FROM t1 AS a INNER JOIN (SELECT id, x FROM t2) AS b ON a.id = b.id WHERE a.x > 1 ORDER BY 1\n";
+        eprintln!("start rss {} MB", rss());
+        for round in 0..5 {
+            for i in 0..2000 {
+                match mode.as_str() {
+                    "linter" => {
+                        if i % 20 == 0 {
+                            ls.clear();
+                            let _ = linter(&mut ls, "ansi", "all", default_cfg);
+                        }
+                    }
+                    "parse" => {
+                        let lt = linter(&mut ls, "ansi", "all", default_cfg);
+                        let _ = parse_status(lt, sql);
+                    }
+                    "lint" => {
+                        let lt = linter(&mut ls, "ansi", &std::env::var("SQV_SEL").unwrap_or("all".into()), default_cfg);
+                        let _ = lt.lint_string(sql, None, false);
+                    }
+                    _ => {
+                        let lt = linter(&mut ls, "ansi", "all", default_cfg);
+                        let _ = lt.lint_string(sql, None, true).fix_string();
+                    }
+                }
+            }
+            eprintln!("{} round {} rss {} MB", mode, round, rss());
+        }
+        return;
+    }
     if let Some(path) = args.flag("--replay-input") {
         let v: Value = serde_json::from_str(&std::fs::read_to_string(path).unwrap()).unwrap();
         let v = if v.get("input").is_some() { v["input"].clone() } else { v };
+        let cfg = match v["cfg_body"].as_str() {
+            Some(b) if !b.is_empty() => leak_cfg(v["cfg"].as_str().unwrap_or("replayed").to_string(), b.to_string()),
+            _ => default_cfg,
+        };
         items.push(Item {
             cls: "replay",
             dialect: v["dialect"].as_str().unwrap_or("ansi").to_string(),
             sel: v["rules"].as_str().unwrap_or("all").to_string(),
-            sel_kind: "replay",
+            cfg,
             sql: v["sql"].as_str().unwrap_or("").to_string(),
         });
     } else {
+        let thorough = args.thorough();
+        let (opt_cfgs, combos) = option_cfgs();
         // regression corpus first: the token-adjacency probes of C06 and minimised earlier failures
         let extra: &[(&str, &str)] = &[
             ("postgres", "drop procedure delete_actor, update_actor CASCADE;\n"),
@@ -188,31 +1036,49 @@ pub fn main(args: &Args) {
             }
             for (i, sel) in sels.iter().enumerate() {
                 if i < 2 || ["layout", "convention", "structure", "LT01", "CV07", "ST04"].contains(&sel.0.as_str()) {
-                    items.push(Item { cls: "probe", dialect: d.to_string(), sel: sel.0.clone(), sel_kind: sel.1, sql: sql.to_string() });
+                    items.push(Item { cls: "probe", dialect: d.to_string(), sel: sel.0.clone(), cfg: default_cfg, sql: sql.to_string() });
                 }
             }
         }
-        let corpus = corpus();
-        let (stride, max_len, sel_per_variant) = if args.thorough() { (2usize, 6000usize, 12usize) } else { (14usize, 1800usize, 6usize) };
-        let mut gen_linters: std::collections::HashMap<String, Linter> = Default::default();
+
+        // ---- the fixtures: whole files, single statements, fragments (parsed once, in parallel)
+        let corpus: Vec<CorpusFile> = corpus().into_iter().filter(|f| DIALECTS.contains(&f.dialect.as_str()) && f.text.len() <= 40000).collect();
+        let (stride, max_len, sel_per_variant) = if thorough { (2usize, 6000usize, 12usize) } else { (14usize, 1800usize, 6usize) };
+        let harvests: Vec<Harvest> = par_map(&corpus, |ls, f| harvest_file(ls, f, max_len));
+        let mut stmts: BTreeMap<String, Vec<(String, String)>> = BTreeMap::new(); // dialect -> (text, lower-cased)
+        let mut stmt_toks: HashMap<String, Vec<(u8, String)>> = HashMap::new();
+        let mut frags: BTreeMap<String, Frags> = BTreeMap::new();
+        for (f, h) in corpus.iter().zip(harvests.iter()) {
+            let fr = frags.entry(f.dialect.clone()).or_default();
+            for (dst, src) in [(&mut fr.selects, &h.selects), (&mut fr.from_elems, &h.from_elems), (&mut fr.joins, &h.joins)] {
+                for s in src {
+                    if !dst.contains(s) {
+                        dst.push(s.clone());
+                    }
+                }
+            }
+            let v = stmts.entry(f.dialect.clone()).or_default();
+            for (s, t) in &h.stmts {
+                if !stmt_toks.contains_key(s) {
+                    stmt_toks.insert(s.clone(), t.clone());
+                    v.push((s.clone(), s.to_lowercase()));
+                }
+            }
+        }
+        out.stat(json!({"fixture_statements": stmts.iter().map(|(d, v)| (d.clone(), v.len())).collect::<BTreeMap<_, _>>(),
+                        "fixture_fragments": frags.iter().map(|(d, f)| (d.clone(), json!([f.selects.len(), f.from_elems.len(), f.joins.len()]))).collect::<BTreeMap<_, _>>()}));
+
+        // ---- whole files and their perturbations (as before)
         for (k, f) in corpus.iter().enumerate() {
-            if !DIALECTS.contains(&f.dialect.as_str()) || f.text.len() > max_len {
+            if f.text.len() > max_len || (k + args.seed as usize) % stride != 0 || !harvests[k].whole_clean {
                 continue;
             }
-            if (k + args.seed as usize) % stride != 0 {
-                continue;
-            }
-            let gl = gen_linters.entry(f.dialect.clone()).or_insert_with(|| mk_linter(&f.dialect, "all", &LAYOUT_CFGS[0]));
-            match parse_status(gl, &f.text) {
-                Ok((0, 0, true)) => {}
-                _ => continue,
-            }
-            let Ok(toks) = lex_tokens(gl, &f.text) else { continue };
+            let toks = &harvests[k].whole_toks;
             let variants: Vec<(&'static str, String)> = vec![
                 ("corpus", f.text.clone()),
-                ("scrambled", scramble(&toks, &mut rng)),
-                ("collapsed", collapse(&toks)),
-                ("recased", recase(&toks, rng.below(3))),
+                ("scrambled", scramble(toks, &mut rng)),
+                ("collapsed", collapse(toks)),
+                ("recased", recase(toks, rng.below(3))),
             ];
             for (cls, sql) in variants {
                 // every input under all and core; corpus files under every group; plus a seeded sample of the other selections
@@ -226,15 +1092,293 @@ pub fn main(args: &Args) {
                 chosen.sort();
                 chosen.dedup();
                 for i in chosen {
-                    items.push(Item { cls, dialect: f.dialect.clone(), sel: sels[i].0.clone(), sel_kind: sels[i].1, sql: sql.clone() });
+                    items.push(Item { cls, dialect: f.dialect.clone(), sel: sels[i].0.clone(), cfg: default_cfg, sql: sql.clone() });
+                }
+            }
+        }
+
+        // ---- single statements under the default configuration, and `all` / `core` under layout and combined configurations
+        let n_stmt = if thorough { 160 } else { 20 };
+        for (d, v) in &stmts {
+            for i in pick_relevant(v, &[], n_stmt, &mut rng) {
+                let sql = &v[i].0;
+                items.push(Item { cls: "statement", dialect: d.clone(), sel: "all".into(), cfg: default_cfg, sql: sql.clone() });
+                for _ in 0..2 {
+                    let s = &sels[rng.below(sels.len())];
+                    items.push(Item { cls: "statement", dialect: d.clone(), sel: s.0.clone(), cfg: default_cfg, sql: sql.clone() });
+                }
+                let cfg: &'static LayoutCfg = if rng.chance(1, 2) { combos[rng.below(2)] } else { &LAYOUT_CFGS[1 + rng.below(LAYOUT_CFGS.len() - 1)] };
+                items.push(Item { cls: "statement", dialect: d.clone(), sel: if rng.chance(1, 2) { "all".into() } else { "core".into() }, cfg, sql: sql.clone() });
+            }
+        }
+
+        // ---- class `option`: each non-default option value on the statements relevant to the rule
+        let (k_any, k_trig) = if thorough { (60usize, 600usize) } else { (8usize, 30usize) };
+        for oc in &opt_cfgs {
+            for (d, v) in &stmts {
+                if !oc.only.is_empty() && !oc.only.contains(&d.as_str()) {
+                    continue;
+                }
+                let k = if oc.triggers.is_empty() { k_any } else { k_trig };
+                for (n, i) in pick_relevant(v, oc.triggers, k, &mut rng).into_iter().enumerate() {
+                    let sql = &v[i].0;
+                    items.push(Item { cls: "option", dialect: d.clone(), sel: oc.code.to_string(), cfg: oc.cfg, sql: sql.clone() });
+                    let wide = match n % 3 {
+                        0 => group_of(oc.code).to_string(),
+                        1 => "all".to_string(),
+                        _ => continue,
+                    };
+                    items.push(Item { cls: "option", dialect: d.clone(), sel: wide, cfg: oc.cfg, sql: sql.clone() });
+                }
+            }
+        }
+
+        // ---- class `joint-*`
+        let lt_sels = ["layout", "core", "all"];
+        let mut n_joint = 0usize;
+        for (d, sql) in TOUCH_PROBES.iter().chain(FUSION_PROBES.iter()) {
+            if !DIALECTS.contains(d) {
+                continue;
+            }
+            // tokens of the probe: lexed by a throwaway linter of the dialect (kept per dialect)
+            let toks = match PROBE_LEX.with(|c| {
+                let mut c = c.borrow_mut();
+                let lt = linter(&mut c, d, "LT01", default_cfg);
+                lex_tokens(lt, sql)
+            }) {
+                Ok(t) => t,
+                Err(_) => continue,
+            };
+            let us = units(&toks);
+            for k in 0..us.len().saturating_sub(1) {
+                for (style, explode) in [(0usize, true), (1, true), (0, false), (2, true)] {
+                    if style == 2 && !us[k].2.is_empty() {
+                        continue; // a bare line break is new only where the source has no gap
+                    }
+                    let text = with_joint(&us, k, JOINT_STYLES[style].1, explode);
+                    n_joint += 1;
+                    items.push(Item { cls: JOINT_STYLES[style].0, dialect: d.to_string(), sel: "LT01".into(), cfg: default_cfg, sql: text.clone() });
+                    items.push(Item { cls: JOINT_STYLES[style].0, dialect: d.to_string(), sel: lt_sels[n_joint % 3].into(), cfg: default_cfg, sql: text });
+                }
+            }
+        }
+        let (n_js, n_jj) = if thorough { (120usize, 12usize) } else { (20usize, 6usize) };
+        for (d, v) in &stmts {
+            let small: Vec<(String, String)> = v.iter().filter(|s| s.0.len() <= 700).cloned().collect();
+            for i in pick_relevant(&small, &["[", "::", ":", ".", "("], n_js, &mut rng) {
+                let us = units(&stmt_toks[&small[i].0]);
+                if us.len() < 3 {
+                    continue;
+                }
+                for _ in 0..n_jj {
+                    // a joint, those at touch tokens three times as likely
+                    let weights: Vec<usize> = (0..us.len() - 1).map(|k| if is_touch_token(&us[k].1) || is_touch_token(&us[k + 1].1) { 3 } else { 1 }).collect();
+                    let mut r = rng.below(weights.iter().sum());
+                    let mut k = 0;
+                    while r >= weights[k] {
+                        r -= weights[k];
+                        k += 1;
+                    }
+                    let style = [0, 0, 1, 2, 3][rng.below(5)];
+                    let text = with_joint(&us, k, JOINT_STYLES[style].1, rng.chance(2, 3));
+                    n_joint += 1;
+                    let sel = if rng.chance(1, 2) { "LT01" } else { lt_sels[n_joint % 3] };
+                    items.push(Item { cls: JOINT_STYLES[style].0, dialect: d.clone(), sel: sel.into(), cfg: default_cfg, sql: text });
+                }
+            }
+        }
+
+        // ---- class `synth`: generated per dialect (vocabulary validated against the dialect's parser), in parallel
+        let n_synth = if thorough { 1500usize } else { 150usize };
+        let dialect_jobs: Vec<(String, u64, Frags)> = DIALECTS.iter().map(|d| (d.to_string(), rng.next(), frags.get(*d).cloned().unwrap_or_default())).collect();
+        let synth: Vec<(Vec<String>, Value)> = par_map(&dialect_jobs, |ls, (d, seed, fr)| {
+            let lt = linter(ls, d, "LT01", default_cfg);
+            let v = vocab(lt, fr);
+            let mut rng = Rng::new(*seed);
+            let mut got: Vec<String> = vec![];
+            let mut tries = 0;
+            while got.len() < n_synth && tries < 4 * n_synth {
+                tries += 1;
+                let q = synth_query(&v, fr, &mut rng);
+                if q.len() <= 1500 && parses_cleanly(lt, &q) && !got.contains(&q) {
+                    got.push(q);
+                }
+            }
+            let info = json!({"dialect": d, "queries": got.len(), "tries": tries,
+                "source_forms": v.src_ok.iter().filter(|b| **b).count(),
+                "join_kinds": JOIN_KINDS.iter().zip(v.jk_ok.iter()).filter(|(_, ok)| ok.iter().any(|b| *b)).map(|(k, _)| *k).collect::<Vec<_>>(),
+                "set_operators": v.set_ok.iter().filter(|b| **b).count(), "wrappers": v.wrap_ok.iter().filter(|b| **b).count()});
+            (got, info)
+        });
+        out.stat(json!({"synth_vocabulary": synth.iter().map(|s| s.1.clone()).collect::<Vec<_>>()}));
+        // selections that rewrite joins / sources / references, under default and non-default options
+        let mut synth_sels: Vec<(String, &'static LayoutCfg)> = vec![];
+        for g in ["aliasing", "ambiguous", "references", "convention", "structure", "core", "layout"] {
+            synth_sels.push((g.to_string(), default_cfg));
+        }
+        for c in ["AL01", "AL02", "AL05", "AL07", "AM05", "RF03", "ST04", "ST05", "ST06", "ST07", "CV11", "LT09"] {
+            if sels.iter().any(|s| s.0 == c) {
+                synth_sels.push((c.to_string(), default_cfg));
+            }
+        }
+        for oc in &opt_cfgs {
+            if ["AL01", "AL02", "AL07", "AM05", "RF03", "ST05", "LT09", "CV01"].contains(&oc.code) {
+                synth_sels.push((oc.code.to_string(), oc.cfg));
+                synth_sels.push((group_of(oc.code).to_string(), oc.cfg));
+            }
+        }
+        for c in &combos {
+            synth_sels.push(("all".into(), c));
+        }
+        for ((d, _, _), (qs, _)) in dialect_jobs.iter().zip(synth.iter()) {
+            for q in qs {
+                items.push(Item { cls: "synth", dialect: d.clone(), sel: "all".into(), cfg: default_cfg, sql: q.clone() });
+                items.push(Item { cls: "synth", dialect: d.clone(), sel: "structure".into(), cfg: default_cfg, sql: q.clone() });
+                for _ in 0..3 {
+                    let s = &synth_sels[rng.below(synth_sels.len())];
+                    items.push(Item { cls: "synth", dialect: d.clone(), sel: s.0.clone(), cfg: s.1, sql: q.clone() });
                 }
             }
         }
     }
-    // one Linter (an expanded grammar, tens of MB) per (dialect, selection): keep equal keys adjacent so
-    // that the small per-thread cache of `linter()` is enough (probes stay first within their key)
-    items.sort_by(|a, b| (a.dialect.as_str(), a.sel.as_str()).cmp(&(b.dialect.as_str(), b.sel.as_str())));
-    out.stat(json!({"items": items.len(), "selections": sels.iter().map(|s| s.0.clone()).collect::<Vec<_>>()}));
-    par_run(&mut out, &items, Linters::new, run_one);
+    // one Linter (an expanded grammar, tens of MB) per (dialect, selection, configuration): a work unit is a
+    // run of items with the same key (at most 48), so that few threads build the same linter; order is
+    // deterministic (probes stay first within their key)
+    let mut seen: HashSet<(String, String, &'static str, String)> = HashSet::new();
+    items.retain(|i| seen.insert((i.dialect.clone(), i.sel.clone(), i.cfg.name, i.sql.clone())));
+    items.sort_by(|a, b| (a.dialect.as_str(), a.sel.as_str(), a.cfg.name).cmp(&(b.dialect.as_str(), b.sel.as_str(), b.cfg.name)));
+    let mut units_of_work: Vec<Vec<Item>> = vec![];
+    for it in items {
+        match units_of_work.last_mut() {
+            Some(u) if u.len() < 48 && u[0].dialect == it.dialect && u[0].sel == it.sel && u[0].cfg.name == it.cfg.name => u.push(it),
+            _ => units_of_work.push(vec![it]),
+        }
+    }
+    let n_items: usize = units_of_work.iter().map(|u| u.len()).sum();
+    out.stat(json!({"items": n_items, "work_units": units_of_work.len(), "selections": sels.iter().map(|s| s.0.clone()).collect::<Vec<_>>(),
+                    "option_configurations": RULE_OPTS.iter().map(|(c, o, _, _)| format!("{}: {}", c, o.replace('\n', ", "))).collect::<Vec<_>>()}));
+    // `lint_string` does not give back all the memory it takes (about 0.2 MB per call with LT01 / LT02 / LT05
+    // selected, 0.06 MB with AL05 / RF03 / ST05, measured with --leak-test): a long run is therefore cut into
+    // child processes of at most SHARD_ITEMS observations each, run one after the other
+    const SHARD_ITEMS: usize = 7000;
+    if n_items <= SHARD_ITEMS + SHARD_ITEMS / 2 {
+        run_units(&mut out, &units_of_work);
+        out.finish();
+        return;
+    }
+    let scratch = std::env::var("SQV_SCRATCH").map(std::path::PathBuf::from).unwrap_or_else(|_| std::env::temp_dir());
+    let exe = std::env::current_exe().expect("current_exe");
+    let mut shards: Vec<Vec<Vec<Item>>> = vec![vec![]];
+    let mut in_shard = 0usize;
+    for u in units_of_work {
+        if in_shard + u.len() > SHARD_ITEMS && in_shard > 0 {
+            shards.push(vec![]);
+            in_shard = 0;
+        }
+        in_shard += u.len();
+        shards.last_mut().unwrap().push(u);
+    }
+    let mut counts: BTreeMap<String, u64> = BTreeMap::new();
+    let mut by_class: BTreeMap<String, u64> = BTreeMap::new();
+    let mut hyps: BTreeMap<String, (String, u64, u64, Value)> = BTreeMap::new();
+    let (mut n_direct, mut n_fail) = (0u64, 0u64);
+    for (k, shard) in shards.iter().enumerate() {
+        let items_path = scratch.join(format!("sqv-c05-{}-{}.items.json", std::process::id(), k));
+        let out_path = scratch.join(format!("sqv-c05-{}-{}.out.jsonl", std::process::id(), k));
+        let js: Vec<Vec<Value>> = shard
+            .iter()
+            .map(|u| u.iter().map(|it| json!({"cls": it.cls, "dialect": it.dialect, "rules": it.sel, "cfg": it.cfg.name, "cfg_body": it.cfg.body, "sql": it.sql})).collect())
+            .collect();
+        std::fs::write(&items_path, serde_json::to_vec(&js).unwrap()).expect("write shard");
+        let st = std::process::Command::new(&exe)
+            .args(["c05", "--tier", &args.tier, "--seed", &args.seed.to_string(), "--out"])
+            .arg(&out_path)
+            .arg("--items-file")
+            .arg(&items_path)
+            .status();
+        let _ = std::fs::remove_file(&items_path);
+        let text = std::fs::read_to_string(&out_path).unwrap_or_default();
+        let _ = std::fs::remove_file(&out_path);
+        let mut done = false;
+        for l in text.lines() {
+            let Ok(v) = serde_json::from_str::<Value>(l) else { continue };
+            match v["t"].as_str().unwrap_or("") {
+                "direct_fail" => out.line(v),
+                "counts" => {
+                    for (dst, src) in [(&mut counts, &v["v"]), (&mut by_class, &v["direct_by_class"])] {
+                        if let Some(m) = src.as_object() {
+                            for (name, n) in m {
+                                *dst.entry(name.clone()).or_default() += n.as_u64().unwrap_or(0);
+                            }
+                        }
+                    }
+                }
+                "hyp" => {
+                    let e = hyps.entry(v["name"].as_str().unwrap_or("").to_string()).or_insert((v["class"].as_str().unwrap_or("").to_string(), 0, 0, Value::Null));
+                    e.1 += v["checks"].as_u64().unwrap_or(0);
+                    e.2 += v["failures"].as_u64().unwrap_or(0);
+                    if e.3.is_null() {
+                        e.3 = v["example"].clone();
+                    }
+                }
+                "done" => {
+                    done = true;
+                    n_direct += v["direct"].as_u64().unwrap_or(0);
+                    n_fail += v["direct_fail"].as_u64().unwrap_or(0);
+                }
+                _ => {}
+            }
+        }
+        if !matches!(st, Ok(s) if s.success()) || !done {
+            eprintln!("c05: shard {} of {} failed: {:?}", k, shards.len(), st);
+            std::process::exit(3);
+        }
+    }
+    counts.insert("shards".into(), shards.len() as u64);
+    for (name, (class, checks, failures, example)) in hyps {
+        out.line(json!({"t":"hyp","name":name,"class":class,"checks":checks,"failures":failures,"example":example}));
+    }
+    out.line(json!({"t":"counts","v":counts,"direct_by_class":by_class}));
+    out.line(json!({"t":"done","cases":0,"direct":n_direct,"direct_fail":n_fail}));
+}
+
+fn run_units(out: &mut Out, units: &[Vec<Item>]) {
+    par_run(out, units, Linters::new, |ls, unit, buf| {
+        for it in unit {
+            run_one(ls, it, buf);
+        }
+    });
+}
+
+/// a child process of a sharded run: the observations listed in the file, nothing else
+fn run_items_file(args: &Args, path: &str) {
+    let mut out = Out::new(&args.out);
+    let v: Vec<Vec<Value>> = serde_json::from_str(&std::fs::read_to_string(path).expect("read shard")).expect("parse shard");
+    let mut cfgs: HashMap<String, &'static LayoutCfg> = HashMap::new();
+    let mut classes: HashMap<String, &'static str> = HashMap::new();
+    let units: Vec<Vec<Item>> = v
+        .iter()
+        .map(|u| {
+            u.iter()
+                .map(|j| {
+                    let name = j["cfg"].as_str().unwrap_or("default").to_string();
+                    let body = j["cfg_body"].as_str().unwrap_or("").to_string();
+                    let cls = j["cls"].as_str().unwrap_or("replay").to_string();
+                    Item {
+                        cls: *classes.entry(cls.clone()).or_insert_with(|| Box::leak(cls.into_boxed_str())),
+                        dialect: j["dialect"].as_str().unwrap_or("ansi").to_string(),
+                        sel: j["rules"].as_str().unwrap_or("all").to_string(),
+                        cfg: *cfgs.entry(name.clone()).or_insert_with(|| leak_cfg(name, body)),
+                        sql: j["sql"].as_str().unwrap_or("").to_string(),
+                    }
+                })
+                .collect()
+        })
+        .collect();
+    run_units(&mut out, &units);
     out.finish();
+}
+
+thread_local! {
+    static PROBE_LEX: std::cell::RefCell<Linters> = std::cell::RefCell::new(Linters::new());
 }
